@@ -181,6 +181,15 @@ static std::string run(int n, const std::string& opsw)
                 std::size_t i = arg(1), k = arg(2);
                 if (live(i) && k < vec.size()) { ok = true; *pool[i] = std::move(vec[k]); }
             }
+            else if (f[0] == "an") { std::size_t i = arg(1); if (live(i)) { ok = true; *pool[i] = nullptr; } }
+            else if (f[0] == "vn") { std::size_t k = arg(1); if (k < vec.size()) { ok = true; vec[k] = nullptr; } }
+            else if (f[0] == "sw")
+            {
+                std::size_t i = arg(1), j = arg(2);
+                if (live(i) && live(j)) { ok = true; using std::swap; swap(*pool[i], *pool[j]); }
+            }
+            else if (f[0] == "dc") { std::size_t i = arg(1); if (i < pool.size() && !pool[i]) { ok = true; pool[i].emplace(); } }
+            else if (f[0] == "vo") { if (!vec.empty()) { ok = true; vec.pop_back(); } }
             else return "BADCASE";
             out += (ok ? "ok|" : "skip|") + state_obs(pool, vec) + ";";
         }
